@@ -122,3 +122,11 @@ Theorem C06_lookup_hypotheses_nonvacuous :
   found_before_cwd example_fs witness_pkg schema_search_order (lit "DEBATE_TRANSCRIPT") = true /\
   lookup example_fs witness_pkg (lit "/work") (lit "DEBATE_TRANSCRIPT") = Some (lit "T").
 Proof. exact found_before_cwd_example. Qed.
+
+(* ---- source-text pins (generated by harness/pinsets.py) ---- *)
+(* every function of these modules is, text for text (comments and docstrings excluded), the one the models of this
+   property were written against and validated against: harness/translate/srcdigest_t.py, Src/Pin_*.v *)
+From OV Require Import Gen.SrcDigestGen Src.Pin_mcp_write Src.Pin_mcp_validate Src.Pin_mcp_eject Src.Pin_mcp_compile_grammar Src.Pin_mcp_base_tool Src.Pin_core_routing Src.Pin_core_validator Src.Pin_schemas_loader.
+Theorem C06_pin_source_text :
+  src_mcp_write_pinned /\ src_mcp_validate_pinned /\ src_mcp_eject_pinned /\ src_mcp_compile_grammar_pinned /\ src_mcp_base_tool_pinned /\ src_core_routing_pinned /\ src_core_validator_pinned /\ src_schemas_loader_pinned.
+Proof. exact (conj src_mcp_write_pinned_ok (conj src_mcp_validate_pinned_ok (conj src_mcp_eject_pinned_ok (conj src_mcp_compile_grammar_pinned_ok (conj src_mcp_base_tool_pinned_ok (conj src_core_routing_pinned_ok (conj src_core_validator_pinned_ok src_schemas_loader_pinned_ok))))))). Qed.
